@@ -486,7 +486,7 @@ def compose_symbolic_types(p, item, tier, seed):
 
             # code that branches on a gate value forks the run instead of stopping it
             try:
-                paths, _st = forkexec.explore(observe, base=list(constraints), catch=(), max_paths=48)
+                paths, _st = forkexec.explore(observe, base=list(constraints), catch=(), max_paths=48, max_seconds=10)
             except forkexec.PathLimit:
                 p.queries["unknown"] += 1
                 limit_hits += 1
